@@ -422,3 +422,91 @@ Example C12_scope_nonvacuous :
   /\ refresh_scope g (Some [PS "openid"; PS "phone"]) = None
   /\ refresh_scope g None = Some g.
 Proof. repeat split; vm_compute; reflexivity. Qed.
+
+(* --- round 11 --- *)
+(* ---- the lifetime dimension of the views (Model/InteropLifetime.v).  The lifetimes that the theorems above take as
+        given numbers are functions of the CONFIGURATION - the token handler's lifetime, the provider-wide usage
+        rule, the client's own token_usage_rules - and the provider is an INSTANCE that serves flows of several
+        clients one after the other through the same handler objects.  `step p i e` runs one minting event (a flow or
+        a refresh round) of client `e_client e` on instance i; `run` runs a sequence on one instance; `alone p e` is
+        the flow on an instance that has served nobody.  The driver evaluates chk_lifetimes on every sequence it
+        drives on one REAL provider instance (short-lived client first, default client first, interleaved,
+        with refresh rounds in between). *)
+From Verif Require Import Model.InteropLifetime Proofs.InteropLifetime_proofs.
+
+(* every view of one event - expires_in of the response, the relying party's __expires_at, the provider's session
+   record, exp - iat INSIDE a JWT-formatted access / refresh token, introspection - states the lifetime the
+   configuration gives THIS client for the token class, all start at the provider's clock, and they agree pairwise:
+   after ANY history h of flows of any clients on the instance *)
+Theorem C12_lifetime_views_agree : forall p h e,
+  let v := snd (step p (run_state p (fresh p) h) e) in
+  all_are (lifetime p (e_client e) TAccess) (at_lifetimes (e_now_rp e) v) = true
+  /\ all_are (lifetime p (e_client e) TRefresh) (rf_lifetimes v) = true
+  /\ all_are (e_now_op e) (starts v) = true
+  /\ lviews_agree (e_now_rp e) v = true.
+Proof. exact step_views. Qed.
+Print Assumptions C12_lifetime_views_agree.
+
+(* the views of every flow of a sequence on one instance are the views of that flow alone: they do not depend on the
+   flows run earlier (or later) on the instance, whoever these were for *)
+Theorem C12_lifetime_history_independent : forall p es, run p (fresh p) es = map (alone p) es.
+Proof. exact run_history_independent. Qed.
+Print Assumptions C12_lifetime_history_independent.
+
+Theorem C12_lifetime_any_position : forall p pre e post d,
+  nth (length pre) (run p (fresh p) (pre ++ e :: post)) d = alone p e.
+Proof. exact run_nth. Qed.
+Print Assumptions C12_lifetime_any_position.
+
+Theorem C12_lifetime_two_histories : forall p h1 h2 e,
+  snd (step p (run_state p (fresh p) h1) e) = snd (step p (run_state p (fresh p) h2) e).
+Proof. exact after_any_history. Qed.
+Print Assumptions C12_lifetime_two_histories.
+
+(* per-client lifetime: the client's own rule, else the provider-wide rule, else the token handler's lifetime *)
+Theorem C12_lifetime_precedence : forall p c k,
+  lifetime p c k =
+  match k with
+  | TAccess => match cl_rule_at c with Some x => x | None =>
+                 match p_rule_at p with Some y => y | None => p_handler_at p end end
+  | TRefresh => match cl_rule_rf c with Some x => x | None =>
+                  match p_rule_rf p with Some y => y | None => p_handler_rf p end end
+  end.
+Proof. exact lifetime_precedence. Qed.
+Print Assumptions C12_lifetime_precedence.
+
+(* the session record of the flow at ANY position of a sequence holds the provider's clock + the lifetime of THE
+   FLOW'S client *)
+Theorem C12_lifetime_of_own_client : forall p pre e post d,
+  lv_session (nth (length pre) (run p (fresh p) (pre ++ e :: post)) d)
+  = Some (e_now_op e, (e_now_op e + lifetime p (e_client e) TAccess)%Z).
+Proof. exact lifetime_other_clients. Qed.
+Print Assumptions C12_lifetime_of_own_client.
+
+(* tie to the views of Model/Interop.v: the record the authorization endpoint creates with the configured lifetime
+   is the one whose expiry the lifetime views state, and all of ITS views agree *)
+Theorem C12_lifetime_interop_views : forall p e client sub al req nonce idt_life at_jwt,
+  let s := grant_session client sub al req nonce (e_now_op e) (lifetime p (e_client e) TAccess) idt_life in
+  lv_session (alone p e) = Some (e_now_op e, s_at_exp s)
+  /\ v_at_exp (view_introspection s) = Some (s_at_exp s)
+  /\ v_at_exp (view_jwt_access_token s) = Some (s_at_exp s)
+  /\ v_at_exp (view_token_response s (e_now_op e)) = Some (e_now_op e + lifetime p (e_client e) TAccess)%Z
+  /\ all_agree (all_views SrcToken SrcToken at_jwt s (e_now_op e) (e_now_op e)) = true.
+Proof. exact lifetime_interop_views. Qed.
+Print Assumptions C12_lifetime_interop_views.
+
+Example C12_lifetime_nonvacuous :
+  let p := mkProvLife 3600 86400 None None in
+  let a := mkClientLife (PS "c12-a") None None in
+  let b := mkClientLife (PS "c12-b") (Some 120%Z) (Some 900%Z) in
+  let ev c t := mkEvent c t t true true true true in
+  map lv_jwt (run p (fresh p) [ev a 100; ev b 200; ev a 300]%Z)
+  = [Some (100, 3700); Some (200, 320); Some (300, 3900)]%Z
+  /\ chk_lifetimes (p, [(ev b 200%Z, alone p (ev b 200%Z)); (ev a 300%Z, alone p (ev a 300%Z))]) = true
+  /\ chk_lifetimes (p, [(ev b 200%Z, alone p (ev b 200%Z));
+                        (ev a 300%Z, let v := alone p (ev a 300%Z) in
+                                     mkLviews (lv_response v) (lv_rp v) (lv_session v) (Some (300, 420)%Z)
+                                              (lv_introspection v) (lv_rf_session v) (lv_rf_jwt v)
+                                              (lv_rf_introspection v))]) = false.
+Proof. exact lifetime_nonvacuous. Qed.
+(* --- end round 11 --- *)
